@@ -113,10 +113,14 @@ func (c *client) SendRPC(rpc hrpc.Call) (msg proto.Message, err error) {
 				return msg, err
 			}
 			continue // retry
-		case region.ServerError:
+		case region.ServerError, region.NotServingRegionError:
 			// Retry ServerError immediately, as we want failover fast to
 			// another server. But if HBase keep sending us ServerError, we
 			// should start to backoff. We don't want to overwhelm HBase.
+			// The same goes for NotServingRegionError: the region is
+			// reestablished before the retry, which takes its time while
+			// the region is gone, but not when it answers the probe and
+			// still refuses the request (its WAL is closed, say).
 			if serverErrorCount > 1 {
 				sp.AddEvent("retrySleep")
 				backoff, err = sleepAndIncreaseBackoff(ctx, backoff)
@@ -125,8 +129,6 @@ func (c *client) SendRPC(rpc hrpc.Call) (msg proto.Message, err error) {
 				}
 			}
 			serverErrorCount++
-			continue // retry
-		case region.NotServingRegionError:
 			continue // retry
 		}
 		return msg, err
@@ -337,13 +339,16 @@ func (c *client) SendBatch(ctx context.Context, batch []hrpc.Call) (
 			break
 		}
 		for _, rpc := range retries {
-			if _, ok := res[rpcToRes[rpc]].Error.(region.ServerError); ok {
+			switch res[rpcToRes[rpc]].Error.(type) {
+			case region.ServerError, region.NotServingRegionError:
 				if serverErrorCount > 1 {
 					needBackoff = true
 				}
 				serverErrorCount++
-				break
+			default:
+				continue
 			}
+			break
 		}
 		if needBackoff {
 			sp.AddEvent("retrySleep")
